@@ -12,9 +12,23 @@
   brand) with the byte-level round trips `C03_roundtrip_box_bytes_ring` /
   `C03_roundtrip_sym_bytes_ring` — the method of `C01_roundtrip_armored`,
   `C05_roundtrip_armored` (Proofs/ArmoredRT.lean).
+
+  Audit finding 8: the first three theorems below speak about `seal62
+  mtEncryption brand msg` for a message `msg` — the frame type is chosen in the
+  STATEMENT.  The second half of the file states the same about the MODEL's
+  armored entry points (Model/Armored.lean: `Signcrypt.sealArmor62`,
+  `Signcrypt.dearmor62Open`, whose frame type `Signcrypt.armorType` is the one
+  the driver's `st.sender sc.a` / `arm.sc.seal` ops run against the real
+  `NewSigncryptArmor62SealStream` / `SigncryptArmor62Seal`), adds the armored
+  refusals (no key ⇒ `ErrNoDecryptionKey` through the armored opener; a text
+  with the frames of another message type is refused), and assumes `BrandOK`
+  (the Go sender never validates the brand: `SigncryptArmor62Seal(…, "a b")`
+  emits a text nobody can open — outside these theorems).
 -/
 import Saltpack.Props.C03
 import Saltpack.Props.C11
+import Saltpack.Model.Armored
+import Saltpack.Proofs.ArmoredRT
 
 namespace Saltpack.Props.C03
 open Saltpack Saltpack.Armor
@@ -84,6 +98,130 @@ theorem C03_armored_frames (brand msg : Bytes) (hbr : Proofs.BrandOK brand) :
       r.header = header mtEncryption brand ∧ r.footer = footer mtEncryption brand :=
   ⟨_, C11.C11_roundtrip mtEncryption (Or.inl rfl) brand hbr msg, rfl, rfl⟩
 
+/-! ## the model's armored entry points (`Signcrypt.sealArmor62` ∘ `Signcrypt.dearmor62Open`) -/
+
+/-- what `SigncryptArmor62Seal` emits: the Armor62 text of `SigncryptSeal`'s
+    message under the ENCRYPTION frame type — it carries the frames
+    `BEGIN/END [brand] SALTPACK ENCRYPTED MESSAGE`, dearmors with their
+    validation, and is REFUSED by the frame check of the two other armorable
+    types (a signcrypted text is not a signed message) -/
+theorem C03_sealArmor62_frames (P : Prims) (bs : Nat) (sender : Option Bytes) (rs : List Signcrypt.Recipient)
+    (eph payloadKey pt brand : Bytes) (hbr : Proofs.BrandOK brand) (text : Bytes)
+    (h : Signcrypt.sealArmor62 P bs sender rs eph payloadKey pt brand = .ok text) :
+    ∃ msg, Signcrypt.sealWith P bs sender rs eph payloadKey pt = .ok msg ∧
+      text = seal62 mtEncryption brand msg ∧
+      open62 (some mtEncryption) text = .ok ⟨msg, brand, header mtEncryption brand, footer mtEncryption brand⟩ ∧
+      (∃ e, open62 (some mtAttached) text = .error e) ∧ (∃ e, open62 (some mtDetached) text = .error e) := by
+  unfold Signcrypt.sealArmor62 armorResult at h
+  cases hm : Signcrypt.sealWith P bs sender rs eph payloadKey pt with
+  | error e => rw [hm] at h; cases h
+  | ok msg =>
+    rw [hm] at h
+    injection h with h
+    subst h
+    exact ⟨msg, rfl, rfl, Proofs.open_seal mtEncryption (Or.inl rfl) brand hbr msg,
+      Proofs.open_seal_wrong_type mtEncryption mtAttached (Or.inl rfl) (Or.inr (Or.inl rfl)) (by decide) brand hbr msg,
+      Proofs.open_seal_wrong_type mtEncryption mtDetached (Or.inl rfl) (Or.inr (Or.inr rfl)) (by decide) brand hbr msg⟩
+
+/-- **`SigncryptArmor62Seal` ∘ `Dearmor62SigncryptOpen`, box-key recipients**
+    (any keyring holding the key, with or without a resolver): sender key,
+    plaintext and brand come back -/
+theorem C03_signcrypt_armored_roundtrip_box (P : Prims) (hP : P.Lawful) (bs : Nat) (hbs : 0 < bs) (hbs32 : bs + 80 < 2 ^ 32)
+    (sender : Option Bytes) (rs : List Signcrypt.Recipient) (eph payloadKey pt : Bytes)
+    (hpk : payloadKey.length = 32)
+    (hsender : ∀ s, sender = some s → ¬ ((P.sigPub s).all (· == 0)))
+    (hblocks : (Encrypt.chunkPlan v2 bs pt).length < 2 ^ 64 - 1)
+    (sks : List Bytes) (res : Signcrypt.Resolver)
+    (i : Nat) (hi : i < rs.length) (sk : Bytes) (hmem : sk ∈ sks) (hsk : rs.getD i default = .box (P.boxPub sk))
+    (hnc : ∀ s ∈ sks, ∀ j, j ≤ i → j < rs.length →
+      Signcrypt.keyIdentifier P (Signcrypt.derivedKeyFromBoxKeys P (P.boxPub eph) s) j =
+        Decrypt.kidOf ((Signcrypt.header P sender eph payloadKey rs).receivers.getD j default) →
+      rs.getD j default = .box (P.boxPub s))
+    (L : Nat) (hL32 : 32 ≤ L)
+    (hid : ∀ key ident, Signcrypt.Recipient.sym key ident ∈ rs → ident.length ≤ L)
+    (hsmall : 145 + rs.length * (L + 63) < 2 ^ 32)
+    (brand : Bytes) (hbr : Proofs.BrandOK brand)
+    (text : Bytes) (htext : Signcrypt.sealArmor62 P bs sender rs eph payloadKey pt brand = .ok text) :
+    Signcrypt.dearmor62Open P (Proofs.faithfulKeyring P sks) res text = .ok (.ok (sender.map P.sigPub, pt, brand)) := by
+  obtain ⟨msg, hmsg, _, hopen, _⟩ := C03_sealArmor62_frames P bs sender rs eph payloadKey pt brand hbr text htext
+  obtain ⟨hr, ps, hsplit, hres⟩ := C03_roundtrip_box_bytes_ring P hP bs hbs hbs32 sender rs eph payloadKey pt hpk
+    hsender hblocks sks res i hi sk hmem hsk hnc L hL32 hid hsmall msg hmsg
+  unfold Signcrypt.dearmor62Open
+  rw [show Signcrypt.armorType = mtEncryption from rfl, hopen]
+  simp only [hsplit, hres]
+
+/-- …symmetric-key recipients (a keyring of foreign box keys and any resolver
+    resolving a non-empty subset to the true keys) -/
+theorem C03_signcrypt_armored_roundtrip_sym (P : Prims) (hP : P.Lawful) (bs : Nat) (hbs : 0 < bs) (hbs32 : bs + 80 < 2 ^ 32)
+    (sender : Option Bytes) (rs : List Signcrypt.Recipient) (eph payloadKey pt : Bytes)
+    (hpk : payloadKey.length = 32)
+    (hsender : ∀ s, sender = some s → ¬ ((P.sigPub s).all (· == 0)))
+    (hblocks : (Encrypt.chunkPlan v2 bs pt).length < 2 ^ 64 - 1)
+    (sks : List Bytes)
+    (hfor : ∀ s ∈ sks, ∀ j, j < (Signcrypt.header P sender eph payloadKey rs).receivers.length →
+      Signcrypt.keyIdentifier P (Signcrypt.derivedKeyFromBoxKeys P (P.boxPub eph) s) j ≠
+        Decrypt.kidOf ((Signcrypt.header P sender eph payloadKey rs).receivers.getD j default))
+    (f : List Bytes → Except Err (List (Option Bytes))) (keys : List (Option Bytes))
+    (hf : f ((Signcrypt.header P sender eph payloadKey rs).receivers.map Decrypt.kidOf) = .ok keys)
+    (hlen : keys.length = rs.length)
+    (htrue : ∀ (j : Nat) (k : Bytes), keys[j]? = some (some k) → ∃ ident, rs[j]? = some (Signcrypt.Recipient.sym k ident))
+    (hsome : ∃ (j : Nat) (k : Bytes), keys[j]? = some (some k))
+    (L : Nat) (hL32 : 32 ≤ L)
+    (hid : ∀ key ident, Signcrypt.Recipient.sym key ident ∈ rs → ident.length ≤ L)
+    (hsmall : 145 + rs.length * (L + 63) < 2 ^ 32)
+    (brand : Bytes) (hbr : Proofs.BrandOK brand)
+    (text : Bytes) (htext : Signcrypt.sealArmor62 P bs sender rs eph payloadKey pt brand = .ok text) :
+    Signcrypt.dearmor62Open P (Proofs.faithfulKeyring P sks) (some f) text =
+      .ok (.ok (sender.map P.sigPub, pt, brand)) := by
+  obtain ⟨msg, hmsg, _, hopen, _⟩ := C03_sealArmor62_frames P bs sender rs eph payloadKey pt brand hbr text htext
+  obtain ⟨hr, ps, hsplit, hres⟩ := C03_roundtrip_sym_bytes_ring P hP bs hbs hbs32 sender rs eph payloadKey pt hpk
+    hsender hblocks sks hfor f keys hf hlen htrue hsome L hL32 hid hsmall msg hmsg
+  unfold Signcrypt.dearmor62Open
+  rw [show Signcrypt.armorType = mtEncryption from rfl, hopen]
+  simp only [hsplit, hres]
+
+/-- **no key ⇒ `ErrNoDecryptionKey` through the armored opener**: a keyring
+    none of whose keys derives a recipient identifier of the message, and a
+    resolver (if any) that resolves nothing, make `Dearmor62SigncryptOpen` of
+    the armored text fail with `ErrNoDecryptionKey` (the armor is accepted, the
+    refusal is the signcryption receiver's) -/
+theorem C03_signcrypt_armored_no_key (P : Prims) (hP : P.Lawful) (bs : Nat) (hbs : 0 < bs) (hbs32 : bs + 80 < 2 ^ 32)
+    (sender : Option Bytes) (rs : List Signcrypt.Recipient) (eph payloadKey pt : Bytes)
+    (hpk : payloadKey.length = 32)
+    (sks : List Bytes)
+    (hfor : ∀ s ∈ sks, ∀ j, j < (Signcrypt.header P sender eph payloadKey rs).receivers.length →
+      Signcrypt.keyIdentifier P (Signcrypt.derivedKeyFromBoxKeys P (P.boxPub eph) s) j ≠
+        Decrypt.kidOf ((Signcrypt.header P sender eph payloadKey rs).receivers.getD j default))
+    (res : Signcrypt.Resolver)
+    (hres : ∀ f, res = some f → ∃ keys,
+      f ((Signcrypt.header P sender eph payloadKey rs).receivers.map Decrypt.kidOf) = .ok keys ∧
+      keys.length = rs.length ∧ ∀ k ∈ keys, k = none)
+    (L : Nat) (hL32 : 32 ≤ L)
+    (hid : ∀ key ident, Signcrypt.Recipient.sym key ident ∈ rs → ident.length ≤ L)
+    (hsmall : 145 + rs.length * (L + 63) < 2 ^ 32)
+    (brand : Bytes) (hbr : Proofs.BrandOK brand)
+    (text : Bytes) (htext : Signcrypt.sealArmor62 P bs sender rs eph payloadKey pt brand = .ok text) :
+    Signcrypt.dearmor62Open P (Proofs.faithfulKeyring P sks) res text = .ok (.error .noDecryptionKey) := by
+  obtain ⟨msg, hmsg, _, hopen, _⟩ := C03_sealArmor62_frames P bs sender rs eph payloadKey pt brand hbr text htext
+  obtain ⟨hb, blks, hs, hsplit⟩ := Proofs.WireRT.sc_bytes_split P hP bs hbs hbs32 sender rs eph payloadKey pt hpk L hL32 hid
+    hsmall msg hmsg
+  have hno := (C03_no_key P bs sender rs eph payloadKey pt _ hb blks hs sks hfor res hres).1
+  unfold Signcrypt.dearmor62Open
+  rw [show Signcrypt.armorType = mtEncryption from rfl, hopen]
+  simp only [hsplit, hno]
+
+/-- **wrong frame type refused**: the armored text of an ATTACHED or DETACHED
+    signature (or any text `seal62 typ …` of another armorable type) is refused
+    by `Dearmor62SigncryptOpen` at the frame check, whatever the keyring -/
+theorem C03_signcrypt_armored_wrong_frame_refused (P : Prims) (kr : Keyring) (res : Signcrypt.Resolver)
+    (typ : Int) (ht : Proofs.Armorable typ) (hne : typ ≠ mtEncryption) (brand : Bytes) (hbr : Proofs.BrandOK brand)
+    (msg : Bytes) :
+    ∃ e, Signcrypt.dearmor62Open P kr res (seal62 typ brand msg) = .ok (.error e) := by
+  obtain ⟨e, he⟩ := Proofs.open_seal_wrong_type typ mtEncryption ht (Or.inl rfl) hne brand hbr msg
+  refine ⟨e, ?_⟩
+  unfold Signcrypt.dearmor62Open
+  rw [show Signcrypt.armorType = mtEncryption from rfl, he]
+
 /-! ## non-vacuity: the symmetric-key toy message of Props/C03.lean, armored with brand "KB" -/
 
 private def isOk {α : Type} : Except Err α → Bool
@@ -93,6 +231,10 @@ private def isOk {α : Type} : Except Err α → Bool
 example : Proofs.BrandOK [75, 66] := ⟨by decide, by decide⟩
 
 example : isOk (Signcrypt.sealWith Toy.prims 4 none toySyms [2] (Toy.pad 32 [9]) [1, 2, 3, 4, 5]) = true := by decide
+
+/-- the model's armored sender on the same toy message: it emits a text -/
+example : isOk (Signcrypt.sealArmor62 Toy.prims 4 none toySyms [2] (Toy.pad 32 [9]) [1, 2, 3, 4, 5] [75, 66]) = true := by
+  decide
 
 /-- `C03_roundtrip_sym_armored` instantiated (empty keyring, a resolver that
     knows the second symmetric key only) -/
